@@ -37,6 +37,9 @@ def run(tier):
             T = A.timeouts[s]
             rep.check(T > 0, 'R15.2', '%s|timeout' % role, 'state %s has no inactivity timeout (0): it never expires back to Nascent' % role,
                       node=fn, function=A.ctor)
+        from .automata_common import automaton_writers
+        rep.rule('R15.3', 'who-may-write the automaton objects (current state, time stamp, tables): only constructors, switch functions and the tick', floor=6)
+        automaton_writers(rep, prog, 'R15.3')
         rep.analysed.update({'table_rows': A.rows, 'timeouts': A.timeouts, 'roles': roles, 'cells_compared': cells})
     return finish(rep, 'proof',
                   'Constructor table and switch function interpreted abstractly (event = every int, elapsed symbolic); the complete relation '
